@@ -18,7 +18,11 @@
     (Lib/Lockset.v, checked on the extracted access table).
 
     [lin] is ghost state: the updates in the order their atomic step happened; the live
-    set "at a state" is the specification's live set of that history.  No proofs here. *)
+    set "at a state" is the specification's live set of that history.
+
+    A run-time panic inside an atomic section (Model/Filter.v returns [None]) crashes the
+    process: the step sets [crashed] and nothing is enabled afterwards.  C12_no_crash proves
+    that no execution reaches such a state.  No proofs here. *)
 From Coq Require Import List Arith NArith Bool.
 Import ListNotations.
 From Glb Require Import Lib.NetIP Lib.CidrSet Model.Filter.
@@ -33,7 +37,7 @@ Record tstate := mkT {
   t_results : list (list N * bool)      (* every returned Contains: argument, result *)
 }.
 
-Record cstate := mkC { filt : state; lin : list op; threads : list tstate }.
+Record cstate := mkC { filt : state; lin : list op; threads : list tstate; crashed : bool }.
 
 Inductive label :=
 | RejectArg (t : nat)
@@ -69,16 +73,21 @@ Definition label_matches (l : label) (k : ukind) : bool :=
   | _, _ => false
   end.
 
-Definition effect (f : state) (k : ukind) : state :=
+(** [None]: the call panics (nip := binary.BigEndian.Uint32(cidr.IP) before the lock, or
+    something inside the locked section) *)
+Definition effect (f : state) (k : ukind) : option state :=
   match k with
-  | KReject => f
-  | KStore b => set_match_all f b
-  | KAdd c => add_locked f (arg_nip c) (arg_ones c)
-  | KRemove c => remove_locked f (arg_nip c) (arg_ones c)
+  | KReject => Some f
+  | KStore b => Some (set_match_all f b)
+  | KAdd c => match arg_nip c with Some nip => add_locked f nip (arg_ones c) | None => None end
+  | KRemove c => match arg_nip c with Some nip => remove_locked f nip (arg_ones c) | None => None end
   end.
 
 Definition set_thread (s : cstate) (t : nat) (th : tstate) : cstate :=
-  mkC (filt s) (lin s) (upd (threads s) t th).
+  mkC (filt s) (lin s) (upd (threads s) t th) (crashed s).
+
+(** an unrecovered panic in some goroutine takes the process down *)
+Definition crash (s : cstate) : cstate := mkC (filt s) (lin s) (threads s) true.
 
 (** the call at the head of [todo] returns *)
 Definition returned (th : tstate) (c : cop) (rest : list cop) (res : list (list N * bool)) : tstate :=
@@ -86,21 +95,28 @@ Definition returned (th : tstate) (c : cop) (rest : list cop) (res : list (list 
 
 Definition step (s : cstate) (l : label) : option cstate :=
   let t := thread_of l in
+  if crashed s then None else
   match nth_error (threads s) t with
   | None => None
   | Some th =>
     match t_mid th, t_todo th with
     | Some nip, CLookup ip :: rest =>
         match l with
-        | LockedScan _ => Some (set_thread s t (returned th (CLookup ip) rest [(ip, scan (filt s) nip)]))
+        | LockedScan _ =>
+            match scan (filt s) nip with
+            | Some r => Some (set_thread s t (returned th (CLookup ip) rest [(ip, r)]))
+            | None => Some (crash s)
+            end
         | _ => None
         end
     | Some _, _ => None
     | None, [] => None
     | None, CUpd o :: rest =>
         if label_matches l (classify o)
-        then Some (mkC (effect (filt s) (classify o)) (lin s ++ [o])
-                       (upd (threads s) t (returned th (CUpd o) rest [])))
+        then match effect (filt s) (classify o) with
+             | Some f' => Some (mkC f' (lin s ++ [o]) (upd (threads s) t (returned th (CUpd o) rest [])) false)
+             | None => Some (crash s)
+             end
         else None
     | None, CLookup ip :: rest =>
         match l with
@@ -108,7 +124,11 @@ Definition step (s : cstate) (l : label) : option cstate :=
             if match_all (filt s) then Some (set_thread s t (returned th (CLookup ip) rest [(ip, true)]))
             else match to4 ip with
                  | None => Some (set_thread s t (returned th (CLookup ip) rest [(ip, false)]))
-                 | Some b => Some (set_thread s t (mkT (t_done th) (t_todo th) (Some (be32 b)) (t_results th)))
+                 | Some b =>
+                     match be32_p b with
+                     | Some nip => Some (set_thread s t (mkT (t_done th) (t_todo th) (Some nip) (t_results th)))
+                     | None => Some (crash s)
+                     end
                  end
         | _ => None
         end
@@ -133,7 +153,7 @@ Definition crun (s : cstate) (ls : list label) : option cstate :=
   match exec s ls with Some (_, f) => Some f | None => None end.
 
 Definition cinit (progs : list (list cop)) : cstate :=
-  mkC init [] (map (fun p => mkT [] p None []) progs).
+  mkC init [] (map (fun p => mkT [] p None []) progs) false.
 
 Definition thread_finished (th : tstate) : bool :=
   match t_todo th, t_mid th with [], None => true | _, _ => false end.
